@@ -13,8 +13,8 @@ VARIANTS = [
     V("no-duplicate-source-check", D + "clip_evaluations.py", "        if len(match_sources) != len(match_sources_set):\n            raise ValueError(\"Multiple matches for the same source.\")\n\n", "", "R04.2"),
     V("targets-subset-only", D + "clip_evaluations.py", "if match_targets_set != annotation_sound_events:", "if not match_targets_set <= annotation_sound_events:", "R04.2"),
     V("sources-compared-with-annotations", D + "clip_evaluations.py", "if match_sources_set != predicted_sound_events:", "if match_sources_set != annotation_sound_events:", "R04.2"),
-    V("match-or-instead-of-and", D + "matches.py", "if values.get(\"source\") is None and values.get(\"target\") is None:", "if values.get(\"source\") is None or values.get(\"target\") is None:", "R04.2"),
-    V("match-validator-only-source", D + "matches.py", "if values.get(\"source\") is None and values.get(\"target\") is None:", "if values.get(\"source\") is None and values.get(\"source\") is None:", "R04.2"),
+    V("match-or-instead-of-and", D + "matches.py", "if self.source is None and self.target is None:", "if self.source is None or self.target is None:", "R04.2"),
+    V("match-validator-only-source", D + "matches.py", "if self.source is None and self.target is None:", "if self.source is None and self.source is None:", "R04.2"),
     V("clip-times-ge", D + "clips.py", "if self.start_time > self.end_time:", "if self.start_time >= self.end_time:", "R04.2"),
     V("clip-times-reversed", D + "clips.py", "if self.start_time > self.end_time:", "if self.start_time < self.end_time:", "R04.2"),
     V("project-compares-annotation-uuid", D + "annotation_projects.py", "if annotated_clip.clip.uuid not in clip_ids:", "if annotated_clip.uuid not in clip_ids:", "R04.2"),
@@ -25,16 +25,19 @@ VARIANTS = [
     V("clip-validator-after-mode", D + "clips.py", "    @model_validator(mode=\"after\")\n    def _validate_times", "    @model_validator(mode=\"wrap\")\n    def _validate_times", "R04.2"),
     V("clip-times-epsilon-tolerance", "src/soundevent/data/clips.py", 'if self.start_time > self.end_time:', 'if self.start_time > self.end_time + 1e-9:', "R04.2"),
     V("clip-times-rounded", "src/soundevent/data/clips.py", 'if self.start_time > self.end_time:', 'if round(self.start_time, 6) > round(self.end_time, 6):', "R04.2"),
-    V("classmethod-above-model-validator", "src/soundevent/data/matches.py", "    @model_validator(mode=\"before\")\n    def _validate_match(cls, values):", "    @classmethod\n    @model_validator(mode=\"before\")\n    def _validate_match(cls, values):", "R04.2"),
+    V("classmethod-above-model-validator", "src/soundevent/data/matches.py", "    @model_validator(mode=\"after\")\n    def _validate_match(self):", "    @classmethod\n    @model_validator(mode=\"after\")\n    def _validate_match(self):", "R04.2"),
     # neutral
     V("N-clips-match-swapped-operands", D + "clip_evaluations.py", "if example.clip.uuid != prediction.clip.uuid:", "if prediction.clip.uuid != example.clip.uuid:", None),
     V("N-clip-times-lt-flipped", D + "clips.py", "if self.start_time > self.end_time:", "if self.end_time < self.start_time:", None),
     V("N-inline-sets", D + "clip_evaluations.py", "if match_targets_set != annotation_sound_events:", "if set(match_targets) != annotation_sound_events:", None),
     V("N-bounds-as-floats", D + "predicted_tags.py", "score: float = Field(default=1, ge=0, le=1)", "score: float = Field(default=1, ge=0.0, le=1.0)", None),
-    V("N-match-not-none-demorgan", D + "matches.py", "if values.get(\"source\") is None and values.get(\"target\") is None:", "if not (values.get(\"source\") is not None or values.get(\"target\") is not None):", None),
+    V("N-match-not-none-demorgan", D + "matches.py", "if self.source is None and self.target is None:", "if not (self.source is not None or self.target is not None):", None),
     # F19: the pre-repair form (ordering tested on the raw input of a before-mode validator)
     V("clip-times-compared-raw-before-mode(F19)", D + "clips.py", "    @model_validator(mode=\"after\")\n    def _validate_times(self):\n        \"\"\"Validate that start_time < end_time.\"\"\"\n        if self.start_time > self.end_time:\n            raise ValueError(\"start_time must be less than end_time\")\n        return self",
       "    @model_validator(mode=\"before\")\n    def _validate_times(cls, values):\n        \"\"\"Validate that start_time < end_time.\"\"\"\n        if values[\"start_time\"] > values[\"end_time\"]:\n            raise ValueError(\"start_time must be less than end_time\")\n        return values", "R04.6"),
     V("N-clip-times-before-mode-on-floats", D + "clips.py", "    @model_validator(mode=\"after\")\n    def _validate_times(self):\n        \"\"\"Validate that start_time < end_time.\"\"\"\n        if self.start_time > self.end_time:\n            raise ValueError(\"start_time must be less than end_time\")\n        return self",
       "    @model_validator(mode=\"after\")\n    def _validate_times(self):\n        \"\"\"Validate that start_time < end_time.\"\"\"\n        start, end = self.start_time, self.end_time\n        if start > end:\n            raise ValueError(\"start_time must be less than end_time\")\n        return self", None),
+    # F25: the pre-repair form (raw mapping read in before mode)
+    V("match-validator-raw-mapping-before-mode(F25)", D + "matches.py", "    @model_validator(mode=\"after\")\n    def _validate_match(self):\n        \"\"\"Validate the match.\"\"\"\n        if self.source is None and self.target is None:\n            raise ValueError(\"Match cannot be between two null objects.\")\n        return self",
+      "    @model_validator(mode=\"before\")\n    def _validate_match(cls, values):\n        \"\"\"Validate the match.\"\"\"\n        if values.get(\"source\") is None and values.get(\"target\") is None:\n            raise ValueError(\"Match cannot be between two null objects.\")\n        return values", "R04.6"),
 ]
